@@ -65,7 +65,7 @@ impl MathOp {
     #[must_use]
     pub fn operate(&self, x: i32, y: i32) -> i32 {
         match self {
-            MathOp::Add => x + y,
+            MathOp::Add => x.wrapping_add(y),
             MathOp::And => x & y,
             MathOp::Or => x | y,
             MathOp::Sll => x << y,
@@ -73,9 +73,9 @@ impl MathOp {
             MathOp::Sltu => i32::from((x as u32) < (y as u32)),
             MathOp::Sra => x >> y,
             MathOp::Srl => (x as u32 >> y) as i32,
-            MathOp::Sub => x - y,
+            MathOp::Sub => x.wrapping_sub(y),
             MathOp::Xor => x ^ y,
-            MathOp::Mul => x * y,
+            MathOp::Mul => x.wrapping_mul(y),
             MathOp::Mulh | MathOp::Mulhsu => {
                 let (x, y) = (i64::from(x), i64::from(y));
                 ((x * y) >> 32) as i32
